@@ -217,12 +217,14 @@ func rhSpecText(cfg vx.M, cacheSize int, strip bool) string {
 	return string(b)
 }
 
-// rhRecorder is the MuxMapper: it knows the backends of cfg.mapper and records what the chosen
-// handler sees.
+// rhRecorder is the MuxMapper: the table of cfg.mapper (backend name -> label of the instance that
+// is registered under the name now) and a record of what the chosen handler sees. A handler is one
+// instance: it reports the label it was created with, whatever the table says by the time it is
+// called (the table changes without a reload of the mux: rhMapStep).
 type rhRecorder struct {
-	known  map[string]bool
+	known  map[string]string
 	called int
-	name   string
+	name   string // label of the instance that was invoked
 	path   string
 	host   string
 }
@@ -230,6 +232,20 @@ type rhRecorder struct {
 type rhHandler struct {
 	rec  *rhRecorder
 	name string
+}
+
+// rhMapStep applies a step of the environment to the table behind the mapper (HttpRouter!Unmap,
+// Map, Remap): {"a":"unmap","be":b}, {"a":"map"|"remap","be":b,"inst":label}. False for other steps.
+func (x *rhMux) rhMapStep(st vx.M) bool {
+	switch vx.Str(st["a"]) {
+	case "unmap":
+		delete(x.rec.known, vx.Str(st["be"]))
+	case "map", "remap":
+		x.rec.known[vx.Str(st["be"])] = vx.Str(st["inst"])
+	default:
+		return false
+	}
+	return true
 }
 
 func (h *rhHandler) Handle(ctx *context.Context) string {
@@ -246,10 +262,11 @@ func (h *rhHandler) Handle(ctx *context.Context) string {
 }
 
 func (r *rhRecorder) GetHandler(name string) (context.Handler, bool) {
-	if !r.known[name] {
+	label, ok := r.known[name]
+	if !ok {
 		return nil, false
 	}
-	return &rhHandler{rec: r, name: name}, true
+	return &rhHandler{rec: r, name: label}, true
 }
 
 type rhMux struct {
@@ -261,9 +278,16 @@ type rhMux struct {
 // rhNewMux builds a real mux for the abstract configuration; err != nil when the specification is
 // rejected by easegress' own validation (a generator problem, never a verdict).
 func rhNewMux(cfg vx.M, cacheSize int, strip bool) (*rhMux, error) {
-	rec := &rhRecorder{known: map[string]bool{}}
-	for _, b := range vx.List(cfg["mapper"]) {
-		rec.known[vx.Str(b)] = true
+	rec := &rhRecorder{known: map[string]string{}}
+	if tab, ok := cfg["mapper"].(vx.M); ok { // name -> instance label (TLC-generated configurations)
+		for b, l := range tab {
+			rec.known[b] = vx.Str(l)
+		}
+	}
+	if names, ok := cfg["mapper"].([]interface{}); ok { // names; each stands for the instance of that name
+		for _, b := range names {
+			rec.known[vx.Str(b)] = vx.Str(b)
+		}
 	}
 	text := rhSpecText(cfg, cacheSize, strip)
 	superSpec, err := supervisor.NewSpec(text)
